@@ -85,6 +85,10 @@ func paramCmpEdge(prm *ssa.Parameter, val int64) EdgeFilter {
 func runC13(c *Ctx) {
 	p := c.P
 	s := p.Selectors()
+	{
+		roots := p.reachableFrom(s.apiMethod("ScaleProcess"))
+		s.checkErrorsNotSwallowed(c, "errors-not-swallowed", func(f *ssa.Function) bool { return roots[f] && inPkgs("app")(f) }, "a failed scale request would be reported as done")
+	}
 	s.checkSnapshotOrder(c, "snapshot-before-render")
 	scaleFn := s.apiMethod("ScaleProcess")
 	c.Touch(scaleFn)
